@@ -1,7 +1,7 @@
 CONSTANTS P = 103  A = 0  B = 5  Gx = 2  Gy = 42  N = 97  Mode = "sign"  RMax = 0
 CONSTANT ESet <- ETwo
 CONSTANT SSet <- SFew
-CONSTANT DSet <- DFew
+CONSTANT DSet <- DThree
 SPECIFICATION Spec
 INVARIANT Holds
 CHECK_DEADLOCK FALSE
